@@ -29,6 +29,15 @@ FLAVOURS = {
     V_STOP: [lambda: StopTraversal(), lambda: _raise(StopTraversal), lambda: _raise(StopTraversal("x")),
              lambda: _raise(StopIteration), lambda: StopTraversal(7), lambda: _raise(StopIteration(3))],
 }
+# the same table as Coq terms of type [raw] (Filter.v)
+COQ_RAW = {
+    V_TRUE: ["RBool true"],
+    V_FALSE: ["RBool false", "RNone"],
+    V_SKIP: ["RRet (CSkip None)", "RRet (CSkip (Some true))", "RRaise (CSkip None)", "RRaise (CSkip None)", "RRaise (CSkip (Some true))"],
+    V_KEEPSELF: ["RRet (CSkip (Some false))", "RRaise (CSkip (Some false))"],
+    V_SELECT: ["RRet CSelect", "RRaise CSelect", "RRaise CSelect"],
+    V_STOP: ["RRet CStop", "RRaise CStop", "RRaise CStop", "RRaiseStopIteration", "RRet CStop", "RRaiseStopIteration"],
+}
 RAISED = {V_SKIP: {2, 3, 4}, V_KEEPSELF: {1}, V_SELECT: {1, 2}, V_STOP: {1, 2, 3, 5}}
 
 
@@ -156,7 +165,7 @@ class Prop:
         vd = {H.nid(n): (desc["verdicts"][k], desc["flavours"][k]) for k, n in enumerate(nodes)}
         start = None if desc["start"] is None else nodes[desc["start"]]
         coq = (f"({H.coq_forest(tree._root, U)}, "
-               f"{H.coq_list(f'({H.nid(n)}, {COQ_V[vd[H.nid(n)][0]]})' for n in nodes)}, "
+               f"{H.coq_list(f'({H.nid(n)}, {COQ_RAW[vd[H.nid(n)][0]][vd[H.nid(n)][1]]})' for n in nodes)}, "
                f"{'(@None Z)' if start is None else H.coq_opt(H.nid(start))})")
 
         # snapshot of the source by pointers, taken before anything runs
